@@ -13,6 +13,7 @@ Everything mirrors the code's order of operations:
 -/
 import GlotaranModel.Proto
 import GlotaranModel.LinAlg
+import GlotaranModel.C02Layout
 namespace Glotaran.C02
 open Glotaran.LinAlg
 
@@ -561,6 +562,10 @@ def alignOps (ts : List Tree) : Option String :=
   | _ => none
 
 def driverStep (s : DState) (ts : List Tree) : DState × String :=
+  -- stateless layout ops (`layout …`, `linkable …`, GlotaranModel/C02Layout.lean)
+  match Layout.layoutOps ts with
+  | some ans => (s, ans)
+  | none =>
   match alignOps ts with
   | some ans => (s, ans)
   | none =>
